@@ -3,6 +3,7 @@
 package verifharness
 
 import (
+	"encoding/binary"
 	"strings"
 	"testing"
 
@@ -308,6 +309,116 @@ func TestC17(t *testing.T) {
 			do("bound", &Ty{Kind: "bitvec", N: k}, gb.val(&Ty{Kind: "bitvec", N: k}))
 			do("bound", &Ty{Kind: "vec", Elem: &Ty{Kind: "u", N: 2}, N: k}, gb.val(&Ty{Kind: "vec", Elem: &Ty{Kind: "u", N: 2}, N: k}))
 		}
+		// malformed backings: one node replaced by a pair of two copies of itself (a pair where
+		// the type expects a chunk) or by its summary root (data missing): the three access
+		// paths must still agree with the model, element by element
+		{
+			gm := &gen{r: newRng(1717), noBool: true, maxElem: 6}
+			nm := 60
+			if thorough() {
+				nm = 1500
+			}
+			rootT, b4 := &Ty{Kind: "root"}, &Ty{Kind: "bytes", N: 4}
+			corpus := []*Ty{
+				{Kind: "vec", Elem: rootT, N: 3}, {Kind: "vec", Elem: rootT, N: 4}, {Kind: "list", Elem: rootT, N: 5},
+				{Kind: "vec", Elem: b4, N: 3}, {Kind: "list", Elem: b4, N: 4},
+				{Kind: "cont", Fields: []*Ty{rootT, {Kind: "u", N: 8}, b4}},
+				{Kind: "list", Elem: &Ty{Kind: "u", N: 8}, N: 9}, {Kind: "vec", Elem: &Ty{Kind: "u", N: 2}, N: 20},
+				{Kind: "bitlist", N: 300}, {Kind: "bitvec", N: 260},
+				{Kind: "list", Elem: &Ty{Kind: "cont", Fields: []*Ty{rootT, rootT}}, N: 4},
+			}
+			for k := 0; k < nm+len(corpus); k++ {
+				var ty *Ty
+				exhaustive := k < len(corpus)
+				if exhaustive {
+					ty = corpus[k]
+				} else {
+					ty = gm.ty(1 + gm.r.Intn(2))
+				}
+				if !isSeriesTy(ty) {
+					continue
+				}
+				v := gm.val(ty)
+				if exhaustive && (ty.Kind == "list" || ty.Kind == "bitlist") {
+					// a few elements, so that element positions exist
+					for tries := 0; tries < 20 && currentValLen(v) < 3; tries++ {
+						v = gm.val(ty)
+					}
+				}
+				full, err := buildView(ty, v)
+				if err != nil {
+					continue
+				}
+				var gis []uint64
+				nodeGindices(full.Backing(), 1, &gis)
+				rounds := 6
+				if exhaustive {
+					rounds = 2 * len(gis)
+				}
+				for j := 0; j < rounds; j++ {
+					gi := gis[gm.r.Intn(len(gis))]
+					kind := []string{"graft", "summ"}[gm.r.Intn(2)]
+					if exhaustive {
+						gi, kind = gis[j/2], []string{"graft", "summ"}[j%2]
+					}
+					if (ty.Kind == "list" || ty.Kind == "bitlist") && j == 0 && ty.N < 1<<62 {
+						// a length node that claims more elements than the limit allows
+						gi, kind = 3, "biglen"
+					}
+					obs := guard(func() string {
+						var nb tree.Node
+						if kind == "biglen" {
+							set, err := full.Backing().Setter(tree.Gindex64(3), false)
+							if err != nil {
+								return "ro=ERR ix=ERR get=ERR"
+							}
+							var ln tree.Root
+							binary.LittleEndian.PutUint64(ln[:8], ty.N+1)
+							nb, err = set(&ln)
+							if err != nil {
+								return "ro=ERR ix=ERR get=ERR"
+							}
+						} else if kind == "graft" {
+							old, err := full.Backing().Getter(tree.Gindex64(gi))
+							if err != nil {
+								return "ro=ERR ix=ERR get=ERR"
+							}
+							set, err := full.Backing().Setter(tree.Gindex64(gi), false)
+							if err != nil {
+								return "ro=ERR ix=ERR get=ERR"
+							}
+							nb, err = set(tree.NewPairNode(old, old))
+							if err != nil {
+								return "ro=ERR ix=ERR get=ERR"
+							}
+						} else {
+							link, err := full.Backing().SummarizeInto(tree.Gindex64(gi), h)
+							if err != nil {
+								return "ro=ERR ix=ERR get=ERR"
+							}
+							nb, err = link()
+							if err != nil {
+								return "ro=ERR ix=ERR get=ERR"
+							}
+						}
+						vw, err := ty.Def().ViewFromBacking(nb, nil)
+						if err != nil {
+							return "ro=ERR ix=ERR get=ERR"
+						}
+						o := iterObs(ty, vw, h)
+						// FieldValues is not part of this stream
+						if i := strings.Index(o, " fv="); i >= 0 {
+							o = o[:i]
+						}
+						return o
+					})
+					if obs == "PANIC" {
+						obs = "ro=PANIC ix=PANIC get=PANIC"
+					}
+					out.emit("malformed", "c17g", []string{ty.Sexp(), v.Sexp(), kind, hx(gi)}, obs)
+				}
+			}
+		}
 		// series spanning more than 512 (and, thorough, 1024 / 4096) bottom chunks: cursors and
 		// stack indices beyond 8 bits
 		bigChunks := []uint64{513}
@@ -357,4 +468,11 @@ func TestC17(t *testing.T) {
 			do("gen", ty, g.val(ty))
 		}
 	})
+}
+
+func currentValLen(v *Val) int {
+	if len(v.Seq) > len(v.Bits) {
+		return len(v.Seq)
+	}
+	return len(v.Bits)
 }
